@@ -11,11 +11,16 @@ Model of
   * `save_module_symbol_file()` (symbol.c:1289): header lines and
     `"%016lx %08x %c %s\n"` per symbol, nothing at all for an empty table.
 
-A file is a `List Char`.  Deviations (never generated by the harness): a line that
-ends right after `"<addr> "` or `"<addr> <size> "` makes the C code read the stale byte
-behind the terminator; the model skips such a line.  `demangle()` is the identity (names
-do not start with `_Z`/`_R`).  `qsort` is modelled by a stable insertion sort; the theorems
-only use that the result is an address-sorted permutation.
+A file is a `List Char`.  Deviations, all on inputs where the C code has undefined or
+memory-unsafe behaviour and which the harness never generates: (1) a line that ends right
+after `"<addr> "` or `"<addr> <size> "` makes the C code read the stale byte behind the
+terminator; the model skips such a line.  (2) a duplicate-(addr,type) line while no symbol
+is stored yet (only possible right after a `?`/`__sym_end` marker, or for addr 2^64-1 with
+type 'X') makes the C code read `sym[-1]`; the model leaves the state unchanged.  (3) a
+`# symbols: N` line is only an allocation hint; the model ignores it (in C a small N in the
+middle of a file shrinks the array).  `demangle()` is the identity (names do not start with
+`_Z`/`_R`).  `qsort` is modelled by a stable insertion sort; the theorems only use that
+the result is an address-sorted permutation.
 Core-only.
 -/
 namespace Uft.SymFile
